@@ -27,6 +27,13 @@ pub enum LockOp {
     CheckpointRestore,
     /// n racers (threads in this process, or child processes) try to open at the same time
     Race { n: u8, children: bool },
+    /// nobody owns the directory: garbage is appended to the newest WAL segment and an open in AbsoluteConsistency mode is
+    /// attempted, which FAILS (after the lock has been taken); nobody owns the directory afterwards either
+    FailingOpen,
+    /// the in-process owner begins a transaction that is kept alive (also across close / drop of the store handle)
+    HoldTxn,
+    /// the oldest transaction that is kept alive is dropped
+    DropHeldTxn,
 }
 
 #[derive(Clone, Debug, PartialEq, Eq, Serialize, Deserialize)]
@@ -97,6 +104,8 @@ struct St {
     n_cp: u32,
     stats: Stats,
     last_release: Option<&'static str>,
+    /// transactions kept alive (they hold the core of the store they were begun on)
+    held: Vec<surrealkv::Transaction>,
 }
 
 impl St {
@@ -124,7 +133,15 @@ impl St {
             return Ok(());
         }
         let before = tree_digest(&self.dir, &["LOCK"]);
-        let r = crate::util::build_tree(opts(&self.dir));
+        // an opener that must be refused may come with OTHER options than the owner's (versioning, version index, value
+        // log): whatever it would create for them must not appear either
+        let o = if self.owner.is_some() && i == 2 {
+            self.stats.inc("refused_open_with_other_options");
+            opts(&self.dir).with_versioning(true, 0).with_versioned_index(true).with_enable_vlog(true)
+        } else {
+            opts(&self.dir)
+        };
+        let r = crate::util::build_tree(o);
         match (r, self.owner) {
             (Ok(t), None) => {
                 match Self::scan(&t) {
@@ -148,7 +165,10 @@ impl St {
             }
             (Err(e), None) => fail("open-refused-without-owner", step, format!("in-process open #{i} failed although nobody holds the directory (last release: {:?}): {e:?}", self.last_release)),
             (Err(_), Some(_)) => {
-                let after = tree_digest(&self.dir, &["LOCK"]);
+                // files only: an EMPTY sub-directory that the refused opener's options ask for (versioned_index/, vlog/) is
+                // created before the lock is tried; that is not data
+                let files = |v: &[(String, u64, u64)]| -> Vec<(String, u64, u64)> { v.iter().filter(|e| !e.0.ends_with('/')).cloned().collect() };
+                let (before, after) = (files(&before), files(&tree_digest(&self.dir, &["LOCK"])));
                 if before != after {
                     return fail("refused-open-touched-data", step, format!("a refused in-process open changed the directory: before {:?} after {:?}", diff(&before, &after), diff(&after, &before)));
                 }
@@ -224,6 +244,61 @@ async fn run_inner(case: &LockCase, dir: &Path, st: &mut St) -> R<()> {
         match op {
             LockOp::OpenIn(i) => st.open_in(*i % 3, si).await?,
             LockOp::OpenChild(i) => st.open_child(*i % 3, si)?,
+            LockOp::HoldTxn => {
+                if let Some(Owner::In(i)) = st.owner {
+                    if st.held.len() < 3 {
+                        if let Ok(txn) = st.ins.get(&i).unwrap().begin_with_mode(surrealkv::Mode::ReadOnly) {
+                            st.held.push(txn);
+                            st.stats.inc("transactions_held");
+                        }
+                    }
+                }
+            }
+            LockOp::DropHeldTxn => {
+                if !st.held.is_empty() {
+                    let t = st.held.remove(0);
+                    drop(t);
+                    st.wait_released().await;
+                    if st.owner.is_none() {
+                        st.stats.inc("transaction_dropped_after_its_store");
+                    }
+                }
+            }
+            LockOp::FailingOpen => {
+                if st.owner.is_some() {
+                    continue;
+                }
+                // the newest non-empty WAL segment
+                let wal_dir = dir.join("wal");
+                let mut segs: Vec<PathBuf> = std::fs::read_dir(&wal_dir).map(|rd| rd.flatten().map(|e| e.path()).filter(|p| p.extension().map_or(false, |x| x == "wal")).collect()).unwrap_or_default();
+                segs.sort();
+                let Some(seg) = segs.last().cloned() else { continue };
+                if std::fs::metadata(&seg).map(|m| m.len()).unwrap_or(0) == 0 {
+                    continue;
+                }
+                {
+                    use std::io::Write;
+                    let Ok(mut f) = std::fs::OpenOptions::new().append(true).open(&seg) else { continue };
+                    // a header with a wrong checksum and an impossible type, then some payload
+                    let _ = f.write_all(&[0xABu8; 40]);
+                }
+                let o = opts(dir).with_wal_recovery_mode(surrealkv::WalRecoveryMode::AbsoluteConsistency);
+                match crate::util::build_tree(o) {
+                    Err(_) => {
+                        st.stats.inc("failed_opens");
+                        st.wait_released().await;
+                        st.last_release = Some("an open that failed (damaged log, AbsoluteConsistency)");
+                    }
+                    Ok(t) => {
+                        // the damage was not noticed (that is C16's business): an ordinary owner that goes away again
+                        st.stats.inc("failing_open_succeeded");
+                        let _ = t.close().await;
+                        drop(t);
+                        st.wait_released().await;
+                        st.last_release = Some("close");
+                    }
+                }
+            }
             LockOp::CloseIn(i) => {
                 let i = *i % 3;
                 if let Some(t) = st.ins.remove(&i) {
@@ -403,12 +478,13 @@ async fn run_inner(case: &LockCase, dir: &Path, st: &mut St) -> R<()> {
 pub fn run_lock_case(case: &LockCase, dir: &Path) -> CaseResult {
     let db = dir.join("db");
     let _ = std::fs::create_dir_all(&db);
-    let mut st = St { dir: db.clone(), owner: None, ins: BTreeMap::new(), children: BTreeMap::new(), model: BTreeMap::new(), n_commit: 0, n_cp: 0, stats: Stats::default(), last_release: None };
+    let mut st = St { dir: db.clone(), owner: None, ins: BTreeMap::new(), children: BTreeMap::new(), model: BTreeMap::new(), n_commit: 0, n_cp: 0, stats: Stats::default(), last_release: None, held: Vec::new() };
     let rt = tokio::runtime::Builder::new_current_thread().enable_all().build().expect("runtime");
     let failure = rt.block_on(run_inner(case, &db, &mut st)).err();
     for (_, c) in std::mem::take(&mut st.children) {
         c.kill();
     }
+    st.held.clear();
     st.ins.clear();
     drop(rt);
     let s = &st.stats;
@@ -422,9 +498,9 @@ pub fn c19() -> PropDef<LockCase> {
         id: "C19",
         engine: "lock",
         level: "exploration",
-        rule: "case = 0..3 prelude commits (left in the WAL so that every later open has recovery work) + up to 25 operations over 3 in-process openers and 3 child processes (helper binary `opener`): open, close, drop without close, kill -9, commits by the current owner, and races of 2..4 threads or processes opening at the same time. Oracle: single-owner model - an open succeeds iff nobody holds the directory, a race has exactly one winner (none while an owner is live); a refused open leaves the directory byte-identical except for the LOCK file; after close / drop / kill the next open succeeds and sees every acknowledged commit. Non-trivial: at least one refused open while an owner was live, a later successful open, and two different release mechanisms in the case. Distinct = hash of the serialised case.".into(),
+        rule: "case = 0..3 prelude commits (left in the WAL so that every later open has recovery work) + up to 25 operations over 3 in-process openers and 3 child processes (helper binary `opener`): open, close, drop without close, kill -9, commits by the current owner, transactions of the in-process owner that are kept alive across close / drop of the store handle and dropped later, refused opens that come with other options than the owner's (versioning, version index, value log), an open that FAILS after it has taken the lock (garbage appended to the newest WAL segment, AbsoluteConsistency mode; only while nobody owns the directory), and races of 2..4 threads or processes opening at the same time. Oracle: single-owner model - an open succeeds iff nobody holds the directory, a race has exactly one winner (none while an owner is live); a refused open leaves the directory byte-identical except for the LOCK file; after close / drop / kill the next open succeeds and sees every acknowledged commit. Non-trivial: at least one refused open while an owner was live, a later successful open, and two different release mechanisms in the case. Distinct = hash of the serialised case.".into(),
         assumptions: vec![
-            "the LOCK file's own content is ownership metadata, not data (a refused open truncates it before trying the lock); it is excluded from the byte-identity comparison".into(),
+            "the LOCK file's own content is ownership metadata, not data (a refused open truncates it before trying the lock); it is excluded from the byte-identity comparison, and so are empty sub-directories (a refused opener creates the ones its options ask for before it tries the lock)".into(),
             "after drop() the harness yields to the runtime so that the close task spawned by Tree::drop runs before the next open".into(),
         ],
         strategy: Arc::new(|| {
@@ -437,6 +513,9 @@ pub fn c19() -> PropDef<LockCase> {
                 2 => (0u8..3).prop_map(LockOp::KillChild),
                 4 => Just(LockOp::Commit),
                 2 => Just(LockOp::CheckpointRestore),
+                2 => Just(LockOp::FailingOpen),
+                3 => Just(LockOp::HoldTxn),
+                2 => Just(LockOp::DropHeldTxn),
                 1 => (0u8..3, any::<bool>()).prop_map(|(n, children)| LockOp::Race { n, children }),
             ];
             (0u8..4, vec(op, 6..26)).prop_map(|(prelude, ops)| LockCase { prelude, ops }).boxed()
